@@ -123,8 +123,18 @@ package packets
 //@ requires b & 3 == q && ((b & 4) != 0 <==> nl) && ((b & 8) != 0 <==> rap) && (b >> 4) & 3 == rh
 //@ ensures same-options: b & 3 == q && ((b & 4) != 0 <==> nl) && ((b & 8) != 0 <==> rap) && (b >> 4) & 3 == rh
 
+// ---- CONNECT (C26): the fixed part and, for MQTT 3.x without a will, the position of every later field ----
+// offsets in a CONNECT body: protocol name (2+n), version, flags, keepalive (2), then client id, [user name], [password]
+// verif:def cnFlags(buf bytes) int = 2 + u16(buf, 0) + 1
+// verif:def cnClientID(buf bytes) int = 2 + u16(buf, 0) + 4
+// verif:def cnUser(buf bytes) int = cnClientID(buf) + 2 + u16(buf, cnClientID(buf))
+// verif:def cnPass(buf bytes, hasUser bool) int = hasUser ? cnUser(buf) + 2 + u16(buf, cnUser(buf)) : cnUser(buf)
 // verif:func packets.Packet.ConnectDecode
 //@ modifies fields(pk)
+//@ ensures C26-connect-version-and-flag-bits: r0 == nil ==> pk.ProtocolVersion == buf[cnFlags(buf) - 1] && (pk.Connect.Clean <==> (int(buf[cnFlags(buf)]) / 2) % 2 == 1) && (pk.Connect.WillFlag <==> (int(buf[cnFlags(buf)]) / 4) % 2 == 1) && (pk.Connect.PasswordFlag <==> (int(buf[cnFlags(buf)]) / 64) % 2 == 1) && (pk.Connect.UsernameFlag <==> int(buf[cnFlags(buf)]) / 128 == 1) && int(pk.Connect.Keepalive) == u16(buf, cnFlags(buf) + 1)
+//@ ensures C26-connect-client-id-read-back: r0 == nil && pk.ProtocolVersion != 5 ==> len(pk.Connect.ClientIdentifier) == u16(buf, cnClientID(buf)) && (forall i int :: 0 <= i && i < len(pk.Connect.ClientIdentifier) ==> pk.Connect.ClientIdentifier[i] == buf[cnClientID(buf) + 2 + i])
+//@ ensures C26-connect-user-name-read-back-when-flagged: r0 == nil && pk.ProtocolVersion != 5 && !pk.Connect.WillFlag && pk.Connect.UsernameFlag ==> len(pk.Connect.Username) == u16(buf, cnUser(buf)) && (forall i int :: 0 <= i && i < len(pk.Connect.Username) ==> pk.Connect.Username[i] == buf[cnUser(buf) + 2 + i])
+//@ ensures C26-connect-password-read-back-when-flagged: r0 == nil && pk.ProtocolVersion != 5 && !pk.Connect.WillFlag && pk.Connect.PasswordFlag ==> len(pk.Connect.Password) == u16(buf, cnPass(buf, pk.Connect.UsernameFlag)) && (forall i int :: 0 <= i && i < len(pk.Connect.Password) ==> pk.Connect.Password[i] == buf[cnPass(buf, pk.Connect.UsernameFlag) + 2 + i])
 // verif:func packets.Packet.ConnackDecode
 //@ modifies fields(pk)
 // verif:func packets.Packet.DisconnectDecode
